@@ -186,6 +186,50 @@ func streamChan(o *Out, r *rand.Rand, n int, thorough bool) {
 			o.Fail(Failure{Oracle: "chan-go-semantics", Key: "chan-history", Input: src.String(), Detail: fmt.Sprintf("a Go channel gives %v, the script observed %v", want, trace)})
 		}
 	}
+	// (1b) for-in loops left early: the items seen and the items still in the channel, against Model/Chan rangeLoop
+	for it := 0; it < 40+n/10; it++ {
+		capN := 1 + r.Intn(10)
+		k := r.Intn(capN + 1)
+		items := make([]int64, k)
+		for i := range items {
+			items[i] = int64(r.Intn(6))
+		}
+		stopAt := int64(r.Intn(7)) // 6 never occurs: the loop runs to the end
+		var src, req strings.Builder
+		fmt.Fprintf(&src, "c = make(chan int64, %d)\n", capN)
+		fmt.Fprintf(&req, "(chanrange %d %d", capN, stopAt)
+		for _, v := range items {
+			fmt.Fprintf(&src, "c <- %d\n", v)
+			fmt.Fprintf(&req, " %d", v)
+		}
+		req.WriteString(")")
+		leave := []string{"break", "throw \"leave\""}[r.Intn(2)]
+		fmt.Fprintf(&src, "close(c)\nseen = []\ntry {\nfor v in c {\nseen += v\nif v == %d {\n%s\n}\n}\n} catch e {\n}\nleft = []\nfor v in c {\nleft += v\n}\nprobe(seen)\nprobe(left)\n", stopAt, leave)
+		if chanAbort(o) {
+			continue
+		}
+		_, err, trace, timedOut, panicked := runChanScript(src.String(), 5*time.Second)
+		o.Sum.Hist["range-left-early"]++
+		impl := "failed"
+		if err == nil && !timedOut && panicked == nil && len(trace) == 2 {
+			lst := func(t string) string { return "[" + strings.ReplaceAll(strings.Trim(t, "[]"), ",", ", ") + "]" }
+			impl = fmt.Sprintf("seen=%s left=%s", lst(trace[0]), lst(trace[1]))
+		}
+		o.Case(req.String(), impl, src.String(), true)
+		// the oracle of the property itself: every item exactly once, in order, across what the body saw and what is left
+		var all []string
+		for _, v := range items {
+			all = append(all, fmt.Sprint(v))
+		}
+		joined := ""
+		if len(trace) == 2 {
+			joined = strings.Trim(strings.Trim(trace[0], "[]")+","+strings.Trim(trace[1], "[]"), ",")
+		}
+		if err != nil || timedOut || panicked != nil || len(trace) != 2 || joined != strings.Join(all, ",") {
+			o.Fail(Failure{Oracle: "chan-go-semantics", Key: "chan-range-left-early", Input: src.String(),
+				Detail: fmt.Sprintf("items %v: the loop's body saw %v and the channel then held %v (err %v, timeout %v, panic %v): every item exactly once, in order", all, trace, "see trace", err, timedOut, panicked)})
+		}
+	}
 	// (2) pipelines
 	procs := []int{1, 2, 4, 16}
 	reps := 1
